@@ -9,7 +9,7 @@
    condition (ok_mul / ok_div / ok_add) holds in both runs; (3) this is pushed through addPin, the eight generators
    of addPin calls, addPenalty and the create* loops. *)
 From Coq Require Import ZArith Reals Psatz Lra Lia List Bool.
-From Coq Require Import SpecFloat.
+From Coq Require Import SpecFloat QArith.
 From Flocq Require Import Core BinarySingleNaN Plus_error.
 Require Import CV.Quad CV.QuadProofs CV.QuadFloat.
 Import ListNotations.
@@ -1042,3 +1042,31 @@ Proof.
   - intros s. unfold fadd_clique. apply fapply_ops_self. unfold fclique_ops. destruct (fclique_w _ _).
     apply fpair_ops_self; [exact H|]. intros; cbn; auto.
 Qed.
+
+(* ------------------------------------------------------------------ (12) finding F30: the penalty anchor lost in binary32 *)
+(* three cells without any fixed pin, two nets of weight 1 between cells 0 and 1 (offsets 0), lower-bound placement (0, 0, 0),
+   approximation distance 2, penalty targets 4194003, 4194010, 4194022 (about 2^22), strengths 1/16, cutoff 40 *)
+Definition f30_fnm : fnetmodel :=
+  fbuild_nm 3 [(f_of_Z 1, [(0%Z, fzero); (1%Z, fzero)]); (f_of_Z 1, [(0%Z, fzero); (1%Z, fzero)])].
+Definition f30_fsys (m : model) : fsys :=
+  fsolver_input (fadd_penalty [fzero; fzero; fzero] [f_of_Z 4194003; f_of_Z 4194010; f_of_Z 4194022]
+                              [f_of_me 1 (-4); f_of_me 1 (-4); f_of_me 1 (-4)] (f_of_Z 40)
+                              (fcreate m f30_fnm [fzero; fzero; fzero] (f_of_Z 2))).
+Definition f30_nm : netmodel := mkNM 3 [mkNet 1 [(0%Z, 0%Q); (1%Z, 0%Q)]; mkNet 1 [(0%Z, 0%Q); (1%Z, 0%Q)]].
+Definition f30_sys (m : model) : sys :=
+  system_penalty m f30_nm [0%Q; 0%Q; 0%Q] 2%Q [4194003%Q; 4194010%Q; 4194022%Q] [(1 # 16)%Q; (1 # 16)%Q; (1 # 16)%Q] 40%Q.
+
+Definition fpositive (v : f32) : bool := is_finite v && negb (Bsign v) && negb (fis_zero v).
+
+Lemma fpenalty_anchor_lost : forall m,
+  let M := fs_mat (f30_fsys m) in let b := fs_rhs (f30_fsys m) in
+  (* the matrix Eigen builds: rows 0 and 1 are (a, -a, 0) and (-a, a, 0): the two penalties have vanished from the diagonal *)
+  fpositive (fentry 0 0 M) = true /\
+  B2SF (fentry 0 1 M) = B2SF (fopp (fentry 0 0 M)) /\ B2SF (fentry 1 0 M) = B2SF (fopp (fentry 0 0 M)) /\
+  B2SF (fentry 1 1 M) = B2SF (fentry 0 0 M) /\
+  fis_zero (fentry 0 2 M) = true /\ fis_zero (fentry 1 2 M) = true /\ fis_zero (fentry 2 0 M) = true /\ fis_zero (fentry 2 1 M) = true /\
+  (* ... while the right-hand side is positive on both rows: (1, 1, 0) . M = 0 but (1, 1, 0) . b > 0: no solution *)
+  fpositive (nth 0 b fzero) = true /\ fpositive (nth 1 b fzero) = true /\
+  (* over Q the same system keeps its anchors: (1, 1, 0) . M x is not identically zero *)
+  (0 < row_sum 0 (s_mat (f30_sys m)) [1; 1; 0] + row_sum 1 (s_mat (f30_sys m)) [1; 1; 0])%Q.
+Proof. intros m. destruct m; vm_compute; repeat split; try reflexivity. Qed.
